@@ -40,7 +40,7 @@ try:
     assert a.returncode == 0, a.stderr
     for p in props:
         t0 = time.time()
-        r = sh('python3 /verif/run.py --property %s --tier quick' % p, cwd='/verif')
+        r = sh('VERIF_SCRATCH_EVIDENCE=1 python3 /verif/run.py --property %s --tier quick' % p, cwd='/verif')
         viol = [l for l in r.stdout.split('\n') if l.startswith('VIOLATION')]
         res[p] = {'exit': r.returncode, 'violations': len(viol), 'first': viol[:3], 'wall_s': round(time.time() - t0), 'summary': r.stdout.strip().split('\n')[-1]}
         # which instances failed
